@@ -15,7 +15,10 @@ sys.path.insert(0, os.path.join(ROOT, "tools"))
 from props import PROPS  # noqa: E402
 
 LEAN = os.path.join(ROOT, "lean")
-HARNESS = os.path.join(ROOT, "harness")
+# VERIF_HARNESS_DIR / VERIF_REPO_DIR: only for tools/try_seed_iso.sh (a scratch copy of the harness built against a patched scratch
+# worktree, so that a seeded change can be tried while /repo itself stays untouched); the registered commands never set them
+HARNESS = os.environ.get("VERIF_HARNESS_DIR", os.path.join(ROOT, "harness"))
+REPO = os.environ.get("VERIF_REPO_DIR", "/repo")
 WORK = os.path.join(ROOT, ".work")
 ORACLE = os.path.join(HARNESS, "target", "debug", "oracle")
 DRIVER = os.path.join(LEAN, ".lake", "build", "bin", "driver")
@@ -43,7 +46,7 @@ def log(*a):
 
 def build_harness():
     """cargo build of the harness against /repo's current working tree (incremental)."""
-    shutil.copyfile("/repo/Cargo.lock", os.path.join(HARNESS, "Cargo.lock"))
+    shutil.copyfile(os.path.join(REPO, "Cargo.lock"), os.path.join(HARNESS, "Cargo.lock"))
     t = time.time()
     rc, out = sh("cargo build --offline --message-format short 2>&1", cwd=HARNESS, timeout=3000)
     errs = [l for l in out.splitlines() if re.search(r"\berror\b", l)]
